@@ -435,7 +435,7 @@ func ruleC18R3(r *Run) {
 	r.Check("genUintNBiased#narrow", width.Pos(), len(miss.narrow) == 0, "for every L >= 2 a narrower draw is satisfiable (small values / range minimum)", fmt.Sprintf("for L=%v no narrower draw is satisfiable", miss.narrow))
 	// forced max really yields max; u <= max acceptance
 	okForce := false
-	for _, b := range fn.Blocks {
+	for _, b := range p.body(fn) {
 		for _, in := range b.Instrs {
 			if ph, ok := in.(*ssa.Phi); ok && ph.Comment == "u" {
 				for i, e := range ph.Edges {
